@@ -748,7 +748,7 @@ def r14(c):
         oc = q.outcomes(nx, cs_[0])
         exs = q.exits(nx)
         some = [x for x in exs if x['kind'] == 'agg' and x['variant'] == 'Some']
-        none = [x for x in exs if x['kind'] == 'agg' and x['variant'] == 'None']
+        none = [x for x in exs if (x['kind'] == 'agg' and x['variant'] == 'None') or (x['kind'] == 'call' and x['cs'].is_(q.FROM_RESIDUAL))]
         st_cur = [(i, s) for i, s in nx.assigns() if s['pl']['p'] and s['pl']['p'][-1].endswith(':current')] + \
                  [(cs.block, None) for cs in nx.calls() if cs.dest['p'] and cs.dest['p'][-1].endswith(':current')]
         st_rem = [(i, s) for i, s in nx.assigns() if s['pl']['p'] and s['pl']['p'][-1].endswith(':remain')]
